@@ -62,9 +62,17 @@ func fidelityPass(tier string, seed uint64, cov map[string]any) (int, []string) 
 			w.Stdin = nd.Data
 			delete(w.Nodes, "\x00stdin")
 		}
+		first := map[*simos.Node]string{}
 		for _, name := range w.Names() {
 			nd := w.Get(name)
 			p := filepath.Join(dir, name)
+			if q, ok := first[nd]; ok {
+				if err := os.Link(q, p); err != nil {
+					return 2, []string{"INFRA: " + err.Error()}
+				}
+				continue
+			}
+			first[nd] = p
 			if nd.Mode&os.ModeSymlink != 0 {
 				if err := os.Symlink(nd.Target, p); err != nil {
 					return 2, []string{"INFRA: " + err.Error()}
@@ -229,7 +237,7 @@ func handOver(dir string) {
 func fidelityEligible(c *GCase) bool {
 	for _, f := range c.Files {
 		m := os.FileMode(f.Mode)
-		if f.Kind == "symlink" || f.Kind == "dir" {
+		if f.Kind == "symlink" || f.Kind == "dir" || f.Kind == "hardlink" {
 			continue
 		}
 		if f.Name != "\x00stdin" && m&0o400 == 0 && !dropPrivileges() {
